@@ -236,6 +236,9 @@ def r4_boundary_kinds(ctx):
 
 def r5_no_nested_scope(ctx):
     C09.r5_no_reentry(ctx)
+    # an expression that raises (missing reference, incompatible units) must not leave the custom units registered: the
+    # next expression over the same environment would fail with "already exists" (scopes are lexical, shared with C09.R4)
+    C09.r4_lexical_scopes(ctx)
 
 
 def r6_templates(ctx):
